@@ -62,11 +62,7 @@ func (c *Ctx) c19ZoneSequences(fs *c19files) {
 				}
 				c.Count("zone-sequence", true, fmt.Sprint(t, sys))
 				wall := time.Date(t.Year(), t.Month(), t.Day(), t.Hour(), t.Minute(), t.Second(), t.Nanosecond(), time.UTC)
-				hx, _ := excelize.VerifTimeToExcelTime(wall, sys)
-				if hx != x {
-					c.Fail("model-impl", "public-vs-hook", desc, fmt.Sprintf("cell raw %q differs from the conversion of the value's wall clock (%v)", raw, hx), "")
-					continue
-				}
+				// the property first: the stored serial decodes to the wall clock the value shows in its own zone
 				dt, err := excelize.ExcelDateToTime(x, sys)
 				if err != nil {
 					c.Fail("oracle", "C19_roundtrip", desc, "ExcelDateToTime failed: "+err.Error(), "")
@@ -74,6 +70,10 @@ func (c *Ctx) c19ZoneSequences(fs *c19files) {
 				}
 				if fieldsOf(dt) != fieldsOf(wall) {
 					c.Fail("oracle", "C19_roundtrip", desc, fmt.Sprintf("wall clock %s (%s) -> serial %s -> %s", fieldsOf(wall), z.desc, raw, fieldsOf(dt)), "")
+					continue
+				}
+				if hx, _ := excelize.VerifTimeToExcelTime(wall, sys); hx != x {
+					c.Fail("model-impl", "public-vs-hook", desc, fmt.Sprintf("cell raw %q differs from the conversion of the value's wall clock (%v)", raw, hx), "")
 				}
 			}
 		}
